@@ -13,17 +13,13 @@ import (
 // Basic shapes against the closed forms of SVG 1.1 §9.2–9.7 (SVG 2 §10).
 // ---------------------------------------------------------------------------------------------
 
-// Tolerances of the ellipse equation for the curved parts of *shapes*.  DESIGN.md asks for 1e-3
-// (as for path arcs).  The unchanged tree approximates a quarter ellipse of <circle>/<ellipse>
-// with the control offset r/√π (radial error 0.63 %) and a rounded <rect> corner with a misplaced
-// second control point (radial error 2.7 %): both are recorded as findings
-// (findings/C18/ellipse-control-ratio.json, rect-corner-control-point.json, which carry the design
-// tolerance) and the random workload uses the bounds below so that everything else about these
-// shapes (knots, order, tangent directions, radii clamping, units) stays monitored.
-// Set both to arcTol once the constants are repaired.
+// Tolerances of the ellipse equation for the curved parts of *shapes*: the design value, as for
+// path arcs.  (On the snapshot tree <circle>/<ellipse> were 0.63 % and rounded <rect> corners
+// 2.7 % off the ellipse — findings/C18/ellipse-control-ratio.json, rect-corner-control-point.json,
+// repaired since; until then these were 1 % and 3 %.)
 const (
-	ellipseCurveTol = 0.01
-	rectCurveTol    = 0.03
+	ellipseCurveTol = arcTol
+	rectCurveTol    = arcTol
 )
 
 // ShapeSpec is the generator-side description: the element, the attribute values resolved to user
@@ -123,13 +119,14 @@ func genShape(r *rand.Rand) *In {
 			el += attr("y", sp.Y, uh)
 		}
 		el += attr("width", sp.Wd, uw) + attr("height", sp.Ht, uh)
-		// radii: none / one of them (the other is "auto": the same length) / both equal.
-		// Different rx and ry are a known finding (ry is read from rx) and are not generated here.
+		// radii: none / one of them (the other is "auto": the same length) / both, equal or not.
+		// A single radius is only written as a plain length: "auto" copying a percentage is an open
+		// finding (findings/C18/rect-single-radius-percent.json).
 		rad := coord(r, 0.25, math.Max(sp.Wd, sp.Ht)*0.75+1)
 		if r.Intn(10) == 0 {
 			rad = 0
 		}
-		switch r.Intn(5) {
+		switch r.Intn(6) {
 		case 0:
 		case 1:
 			sp.Rx, sp.HasRx = rad, true
@@ -137,10 +134,19 @@ func genShape(r *rand.Rand) *In {
 		case 2:
 			sp.Ry, sp.HasRy = rad, true
 			el += attr("ry", rad, 0)
-		default:
+		case 3:
 			sp.Rx, sp.Ry, sp.HasRx, sp.HasRy = rad, rad, true, true
-			// percentages would resolve against different bases: plain lengths only
-			el += attr("rx", rad, 0) + attr("ry", rad, 0)
+			el += attr("rx", rad, uw) + attr("ry", rad, uh)
+		default:
+			rad2 := coord(r, 0.25, math.Max(sp.Wd, sp.Ht)*0.75+1)
+			if r.Intn(12) == 0 {
+				rad2 = 0
+			}
+			sp.Rx, sp.Ry, sp.HasRx, sp.HasRy = rad, rad2, true, true
+			el += attr("rx", rad, uw) + attr("ry", rad2, uh)
+			if rad != rad2 {
+				in.FeatC["shape_rect_rx_ne_ry"]++
+			}
 		}
 		el += "/>"
 	case "circle":
